@@ -1,17 +1,21 @@
 import TracklibVerif.Lemmas.MapMatchZ
 /-! Helper lemmas for C10, fifth part: WHEN `mapOnNetwork` raises nothing. The two exceptions of the candidate loop come from the
-projection (C20): `ZeroDivisionError` on a vertical segment (finding D16), `UnboundLocalError` on a geometry all of whose
-segments are skipped (zero length). On a network none of whose edge geometries has such a segment the preparation of `STATES`
+projection (C20): `ZeroDivisionError` on a vertical segment (finding D16), and from `__distToNode` on a geometry with a single
+vertex (`IndexError`; an EMPTY geometry raises it in the projection, `Xp[0]`). A geometry all of whose segments are skipped
+(zero length) is no longer among them: since the `fix:` commit 563eeba it is an ordinary candidate. On a network none of whose
+edge geometries has a kept vertical segment or fewer than two vertices the preparation of `STATES`
 returns for every observation and every answer of the index made of existing edge numbers; with in-range decoded indices the
 whole call returns. -/
 namespace TV.MapMatch
 open TV.Proj
 variable {α : Type} [Field α] [LinearOrder α] [IsStrictOrderedRing α]
 
-/-- an edge geometry on which `proj_polyligne` cannot raise: no kept segment is vertical, at least one segment is kept -/
+/-- an edge geometry on which the candidate loop cannot raise: no kept segment is vertical (`proj_segment`: D16), and the
+geometry has at least two vertices (`__distToNode` reads `abs_curv[i + 1]`, `track[i + 1]`). NO segment need be kept: since
+the `fix:` commit 563eeba a geometry all of whose vertices coincide is an ordinary candidate (its first vertex, index 0) -/
 def GoodGeom (eps : α) (g : List (α × α)) : Prop :=
   (∀ j p1 p2, g[j]? = some p1 → g[j + 1]? = some p2 → skipped eps p1.1 p1.2 p2.1 p2.2 = false → p1.1 ≠ p2.1) ∧
-  (∃ j p1 p2, g[j]? = some p1 ∧ g[j + 1]? = some p2 ∧ skipped eps p1.1 p1.2 p2.1 p2.2 = false)
+  2 ≤ g.length
 
 /-- `__distToNode` returns on a computed `abs_curv` column for every segment index -/
 theorem distToNode_total (sqrt : α → α) (e : Edge α) (p : α × α) (i k : Nat) (hi : i + 1 < e.geom.length)
@@ -39,11 +43,14 @@ theorem candLoop_total {sqrt : α → α} (hs : SqrtSpec sqrt) (eps radius : α)
     have he : edges[elem]? = some (edges[elem]'hlt) := List.getElem?_eq_getElem hlt
     generalize edges[elem]'hlt = eg at he
     have hmem : eg ∈ edges := List.mem_of_getElem? he
-    obtain ⟨r, hr⟩ := TV.C20.proj_polyline_total hs eps eg.geom pos.1 pos.2 (hgood eg hmem).1 (hgood eg hmem).2
+    have hne : eg.geom ≠ [] := by
+      intro hnil; have := (hgood eg hmem).2; rw [hnil] at this; simp at this
+    obtain ⟨r, hr⟩ := TV.C20.proj_polyline_total hs eps eg.geom pos.1 pos.2 (hgood eg hmem).1 hne
     obtain ⟨d, px, py, i⟩ := r
     have hp : projOnTrack sqrt eps eg.geom pos.1 pos.2 = .ok ((px, py), d, i) :=
       (TV.C20.projOnTrack_spec sqrt eps eg.geom pos.1 pos.2 d px py i).mpr hr
-    obtain ⟨⟨p1, p2, g1, g2, _, _⟩, _⟩ := TV.C20.proj_polyline_min_partial hs eps eg.geom pos.1 pos.2 d px py i hr
+    obtain ⟨_, _, p1, g1, hseg, _⟩ := TV.C20.proj_polyline_on hs eps eg.geom pos.1 pos.2 d px py i hr
+    obtain ⟨p2, g2, _⟩ := hseg (hgood eg hmem).2
     have hi : i + 1 < eg.geom.length := lt_of_getElem?_some _ _ _ g2
     obtain ⟨a, ha⟩ := distToNode_total sqrt eg (px, py) i 0 hi (hcurv eg hmem)
     obtain ⟨b, hb⟩ := distToNode_total sqrt eg (px, py) i 1 hi (hcurv eg hmem)
